@@ -452,3 +452,80 @@ Proof. intros H ->. exact H. Qed.
 Definition pkt_post (h : hdr) (src : bytes) (n : nat) : Prop :=
   dirty h = false /\ (n <= length (dbuf h))%nat /\
   dbuf h = firstn (length (dbuf h)) src /\ (length (dbuf h) <= length src)%nat.
+
+(* ---------- types, default flags, new headers ---------- *)
+
+Lemma default_flags_lt16 ty : default_flags ty < 16.
+Proof.
+  unfold default_flags, default_flags_table. cbn [find fst snd].
+  repeat (destr_if; [cbn [snd]; lia|]). lia.
+Qed.
+
+Lemma new_hdr_type ty : h_type (new_hdr ty) = ty.
+Proof. unfold h_type, new_hdr. cbn [tf]. lia. Qed.
+
+Lemma new_hdr_tf ty : tf (new_hdr ty) = ty * 16 + default_flags ty.
+Proof.
+  unfold new_hdr. cbn [tf]. pose proof (default_flags_lt16 ty). f_equal. lia.
+Qed.
+
+Lemma ack_type_cases ty : is_ack_type ty = true -> ty = 4 \/ ty = 5 \/ ty = 6 \/ ty = 7 \/ ty = 11.
+Proof.
+  unfold is_ack_type, T_PUBACK, T_PUBREC, T_PUBREL, T_PUBCOMP, T_UNSUBACK. lia.
+Qed.
+
+Lemma empty_type_cases ty : is_empty_type ty = true -> ty = 12 \/ ty = 13 \/ ty = 14.
+Proof. unfold is_empty_type, T_PINGREQ, T_PINGRESP, T_DISCONNECT. lia. Qed.
+
+Lemma type_valid_iff ty : type_valid ty = true <-> 0 < ty < 15.
+Proof. unfold type_valid, valid_lo, valid_hi. lia. Qed.
+
+(* the flags condition of hdr_decode for a type other than PUBLISH carrying its default flags *)
+Lemma flags_cond_default ty : ty <> T_PUBLISH ->
+  (if ty =? T_PUBLISH then publish_qos_of_flags (default_flags ty) <? 3
+   else default_flags ty =? default_flags ty) = true.
+Proof. intros H. destruct (ty =? T_PUBLISH) eqn:E; [lia|apply N.eqb_refl]. Qed.
+
+Lemma ok_pair_eq {A} (a : A) n n' : n = n' -> @Ok (A * nat) (a, n) = Ok (a, n').
+Proof. intros ->. reflexivity. Qed.
+
+Lemma fixed_app2 ty fl a b rest :
+  fixed ty fl (a ++ b) ++ rest = ((ty * 16 + fl) :: varint (len (a ++ b))) ++ a ++ (b ++ rest).
+Proof. unfold fixed. cbn [app]. rewrite <- !app_assoc. reflexivity. Qed.
+
+Lemma fixed_app3 ty fl a b c rest :
+  fixed ty fl (a ++ b ++ c) ++ rest =
+  (((ty * 16 + fl) :: varint (len (a ++ b ++ c))) ++ a) ++ b ++ (c ++ rest).
+Proof. unfold fixed. cbn [app]. rewrite <- !app_assoc. reflexivity. Qed.
+
+Lemma varint_small n : n < 128 -> varint n = [n].
+Proof.
+  intros H. unfold varint. cbn [varint_fuel]. destruct (n <? 128) eqn:E; [reflexivity|lia].
+Qed.
+
+(* go through this lemma instead of unfolding body_len_ok in a hypothesis: the kernel's
+   conversion check is slow on [_ <=? maxRemainingLength] over partly concrete lists *)
+Lemma body_len_ok_le X : body_len_ok X = true -> len X <= maxRemainingLength.
+Proof. intros H. unfold body_len_ok in H. lia. Qed.
+
+Lemma str_ok_le s : str_ok s = true -> len s <= maxLPString.
+Proof. unfold str_ok. intros H. lia. Qed.
+
+Lemma str_ok_bytes s : str_ok s = true -> bytes_ok s = true.
+Proof. unfold str_ok. intros H. apply andb_true_iff in H. apply H. Qed.
+
+Lemma fixed_pre ty fl body a b : body = a ++ b ->
+  fixed ty fl body = (((ty * 16 + fl) :: varint (len body)) ++ a) ++ b.
+Proof.
+  intros E. unfold fixed. cbn [app]. rewrite <- app_assoc. rewrite <- E. reflexivity.
+Qed.
+
+Lemma idx_app_exact a x b i : i = length a -> idx (a ++ x :: b) i = Ok x.
+Proof.
+  intros ->. unfold idx. rewrite nth_error_app2 by lia. rewrite Nat.sub_diag. reflexivity.
+Qed.
+
+Lemma combine_map_fst_snd {A B} (l : list (A * B)) : combine (map fst l) (map snd l) = l.
+Proof.
+  induction l as [|[a b] l IH]; [reflexivity|]. cbn [map combine fst snd]. rewrite IH. reflexivity.
+Qed.
